@@ -2,10 +2,15 @@
    Proved: a refusal is always reported (error result -- so the work item is queued again, C11 --
    and a CIDRNotAvailable event on the node); the candidate search of a pool finds a free block
    whenever one exists, whatever the cursor position (C14_next_candidate).
+   Proved (Complete_proofs.v): the allocateCIDR loop with its evaluated counter is complete -- when it
+   gives up on a pool, EVERY block of that pool is a used key somewhere, overlaps a used key somewhere
+   (other ClusterCIDRs over the same addresses, any block size) or overlaps a pod CIDR of a cached node;
+   giving up is the only error it can end with, and it leaves every used set as it found it.
    Not proved yet (checked on every implementation trace by the monitor, which recomputes free
-   capacity from the snapshot and the node cache): completeness of the allocateCIDR loop with its
-   evaluated counter across pools blocked by other ClusterCIDRs. *)
-From NIPAM Require Import Sys Alloc_proofs Pool_proofs.
+   capacity from the snapshot and the node cache): the lift of that statement over the sequence of
+   attempts of prioritizedCIDRs to the state the node sync started from (each attempt is complete with
+   respect to the state it starts in; attempts change cursors and reserve/release one IPv4 block). *)
+From NIPAM Require Import Sys Alloc_proofs Pool_proofs Complete_proofs.
 Open Scope N_scope.
 
 Theorem C05_partial_refusal_is_reported :
@@ -29,3 +34,14 @@ Theorem C05_partial_pool_search_complete :
   end.
 Proof. exact next_spec. Qed.
 Print Assumptions C05_partial_pool_search_complete.
+
+(* the allocation loop over one pool: it fails only by giving up, it gives up only when every block of the
+   pool is blocked (used here, used or overlapped through another ClusterCIDR, or held by a cached node),
+   and a failed loop changes no used set anywhere *)
+Theorem C05_allocation_loop_complete :
+  forall held m p f c pl m' e,
+  get_entry m p = Some c -> pool_of c f = Some pl -> PoolInv pl -> gf (pg pl) = f -> clean_geom (pg pl) = true ->
+  allocate_cidr held m p f = (m', Err e) ->
+  e = EExhausted /\ same_scans m m' /\ forall i, i < maxc (pg pl) -> blockedb m held (block (pg pl) i) = true.
+Proof. exact allocate_cidr_complete. Qed.
+Print Assumptions C05_allocation_loop_complete.
